@@ -443,3 +443,8 @@ def run(ctx):
     from rules import round5
     round5.share(ctx, "R2.10", "C14", lambda i_: i_["rule"] == "R14.1" and i_["inst"].startswith("version_is_compatible"),
                  "version:", "a trace whose required model version is compatible is rejected", 50)
+    ctx.rule("R2.11", "a trace written by this runtime is readable by whoever follows the documented format: same "
+             "layout rule as C01 R1.11 (a lost `packed` keeps all tools of the tree consistent with each other and "
+             "changes every stream)")
+    from rules import round6
+    round6.check_wire_layout(ctx, "R2.11")
